@@ -739,6 +739,20 @@ class RecKind(object):
     def proto_observe(self, P):
         return {'content': dict(P), 'isValue': self.proto_isvalue(P)}
 
+    def twin_eq(self, obj, snap):
+        """obj == a fresh object assigned exactly the members that hold a value in obj (reads in obj's past are not replayed):
+        -> ('ok', bool) | ('raised', class) | None when there is nothing to compare"""
+        if self.family != 'rec' or not snap or not any(c is not None and c != 'CSchema' for c in snap):
+            return None
+        twin = self.make()
+        for k, c in enumerate(snap):
+            if c is not None and c != 'CSchema':
+                twin.setComponentByPosition(k, c[1])
+        try:
+            return ('ok', bool(obj == twin) and bool(twin == obj))
+        except Exception as e:  # noqa
+            return ('raised', type(e).__name__)
+
     def proto_der(self, P):
         ks = [k for k in sorted(P) if not (self.fields[k][1] == 'def' and P[k] == self.fields[k][2])]
         if self.isset:
@@ -1177,6 +1191,11 @@ def run_history(kind, ops, stop_at_first=False):
             failures.append(StepReport(what, cls, i, detail))
             if diverged or stop_at_first:
                 proto_live = False
+        te = kind.twin_eq(obj, snap) if hasattr(kind, 'twin_eq') else None
+        if te is not None and te != ('ok', True) and not what:
+            # whatever was read on the way, the object equals one holding the same members
+            failures.append(StepReport('after %s the object does not compare equal to a fresh object holding the same members' % op[0],
+                                       None, i, {'==': te, 'state': snap}))
     return trace, failures, modelled_upto, ptrace
 
 
